@@ -17,8 +17,8 @@ The property that should hold for this codebase:
 Your task: produce {n} DIFFERENT, independent changes (each on its own, starting from the clean worktree) to the repository's source code (under edb/, Python or Rust) such that each change
   1. BREAKS the property above (a real violation of the statement, not merely a changed message or a crash on every input),
   2. still compiles/imports and still passes the repository's pinned test suite:
-       cd /tmp/wt/{pid} && /venv/bin/python -m pytest -q -p no:cacheprovider tests/common tests/test_profiling.py tests/test_sourcecode.py
-     (58 tests pass on the clean tree; the same must pass with your change), and
+       cd /tmp/wt/{pid} && /venv/bin/python -m pytest -q -p no:cacheprovider --continue-on-collection-errors tests/common tests/test_profiling.py tests/test_sourcecode.py
+     (on the clean tree: 58 passed, 18 skipped, 1 failed [test_cqa_rust_clippy, needs network], 2 collection errors [native module not built]; with your change the result must be exactly the same), and
   3. is REALISTIC and SUBTLE: the kind of regression a plausible refactoring, optimisation or "small fix" could introduce, which ordinary use would NOT expose at once. It should need something specific to manifest: a particular interleaving, a fault or failure at a particular point, a multi-step sequence of operations, an unusual input/value, or two cooperating sites that each look fine alone. Do not make changes that break the very first simple use (e.g. every query fails), and do not touch tests.
 
 For each change provide a demonstration: a small standalone Python program demo.py that exits non-zero (and prints what went wrong) WITH the change applied and exits 0 on the clean tree. Native modules are not built in this sandbox and there is no PostgreSQL and no network; read /root/subst/README.md first: it explains how to import and run the repository's Python code offline against your worktree (VERIF_REPO=/tmp/wt/{pid} PYTHONPATH=/root/subst /venv/bin/python demo.py). Code in edb/common, edb/server/connpool etc. that imports without native modules can also be run with plain PYTHONPATH=/tmp/wt/{pid}. The demo must take the worktree location from the environment variable VERIF_REPO (default /tmp/wt/{pid}) and must not hard-code it elsewhere.
